@@ -110,6 +110,10 @@ CONTEXTS = {
     "lsc-partial-instance-parameter-range": lambda e: lsc_doc("Half(const int[0, %s] hk) = Obs(hk, 3); Scenario = Half(1);" % e),
     "argument-partial-instance-of-partial-instance": lambda e: X.nta(GDECL, [tpl(params="const int p, const int q")],
                                                                       "Q(const int z, const int z2) = T(z, z2); R(const int r) = Q(r, 1); P = R(%s); system P;" % e),
+    "array-size-in-unused-template": lambda e: X.nta(GDECL, [tpl(), X.template("U", decl="int arr[%s];" % e, locations=[X.location("id7", "M0")], init="id7")], SYS),
+    "range-in-unused-template-first": lambda e: X.nta(GDECL, [X.template("U", decl="int[0, %s] r;" % e, locations=[X.location("id7", "M0")], init="id7"), tpl()], SYS),
+    "select-range-in-unused-template": lambda e: X.nta(GDECL, [tpl(), X.template("U", locations=[X.location("id7", "M0")], init="id7", transitions=[
+        X.transition("id7", "id7", select="s : int[0, %s]" % e)])], SYS),
     "quantifier-range": lambda e: X.nta(GDECL, [X.template("T", locations=[X.location("id0", "L0")], init="id0", transitions=[
         X.transition("id0", "id0", guard="forall (i : int[0, %s]) i >= 0" % e)])], SYS),
 }
